@@ -234,13 +234,19 @@ def new_defaulted_params(model: Model, fn: FunctionInfo) -> dict:
     the package passes: {name: default value}.  The property speaks about the API as pinned - the function is read
     with these defaults in place (the other values of a new optional keyword are new surface outside it)."""
     sig = KNOWN_SIGNATURES.get(fn.qualname)
-    if sig is None:
-        return {}
+    brand_new = sig is None
+    if brand_new:
+        # a function the pinned tree does not have (a helper introduced by the change): all of it is new surface;
+        # a defaulted parameter that every call site leaves at its default is read with that default, too
+        if fn.parent is not None or fn.name.startswith("__"):
+            return {}
+        sig = []
     memo = model.__dict__.setdefault("_memo_newparams", {})
     if fn.qualname in memo:
         return memo[fn.qualname]
     out = {}
     cands = [p for p in fn.params if p.name not in sig and isinstance(p.default, ast.Constant)]
+    n_calls = 0
     if cands:
         memo[fn.qualname] = {}  # recursion guard
         passed = set()
@@ -249,13 +255,46 @@ def new_defaulted_params(model: Model, fn: FunctionInfo) -> dict:
                 if isinstance(n, ast.Call):
                     f = n.func
                     cname = f.id if isinstance(f, ast.Name) else f.attr if isinstance(f, ast.Attribute) else None
-                    if cname == fn.name or (cname in ("partial",) and n.args and ast.unparse(n.args[0]).endswith(fn.name)):
+                    hit = cname == fn.name or (cname in ("partial",) and n.args and ast.unparse(n.args[0]).endswith(fn.name))
+                    if fn.name == "__init__" and fn.cls is not None:
+                        # a constructor is called through its class (or `cls` inside the class), not by name;
+                        # `super().__init__(..)` of unrelated classes is not a call of it
+                        hit = cname == fn.cls.name or (cname == "cls" and g.cls is fn.cls)
+                    if hit:
+                        n_calls += 1
+                        # positional arguments that land on a candidate parameter
+                        pos_params = [p for p in fn.params if p.kind == "pos"]
+                        if fn.cls is not None and not fn.is_staticmethod and pos_params and isinstance(f, ast.Attribute) or (fn.name == "__init__" and pos_params):
+                            pos_params = pos_params[1:]
+                        elif fn.cls is not None and not fn.is_staticmethod and pos_params and isinstance(f, ast.Name):
+                            pos_params = pos_params[1:] if fn.name == "__init__" else pos_params
+                        if any(isinstance(a, ast.Starred) for a in n.args):
+                            passed.add("**")
+                        for p_, a_ in zip(pos_params, n.args):
+                            if any(c_.name == p_.name for c_ in cands):
+                                dflt_ = p_.default.value
+                                if not (isinstance(a_, ast.Constant) and a_.value == dflt_ and type(a_.value) is type(dflt_)):
+                                    passed.add(p_.name)
                         for k in n.keywords:
                             if k.arg is None:
-                                passed.add("**")
+                                # f(**kwargs) with kwargs the caller's own catch-all parameter hands on what ITS
+                                # callers name explicitly - nothing by itself
+                                va = g.node.args.kwarg
+                                if isinstance(k.value, ast.Name) and va is not None and k.value.id == va.arg:
+                                    continue
+                                # **{...} written out names its keys; any other mapping (a caller-supplied dict of
+                                # extra options) carries what the caller of g chose to put there, by name
+                                if isinstance(k.value, ast.Dict):
+                                    for kk in k.value.keys:
+                                        if isinstance(kk, ast.Constant) and isinstance(kk.value, str):
+                                            passed.add(kk.value)
+                                        else:
+                                            passed.add("**")
                                 continue
                             # handing on the caller's OWN new keyword of the same default keeps the default in place
                             dflt = next((p.default.value for p in cands if p.name == k.arg), None)
+                            if isinstance(k.value, ast.Name) and g is fn and k.value.id == k.arg:
+                                continue  # a recursive call handing its own value on
                             if isinstance(k.value, ast.Name) and g is not fn:
                                 theirs = new_defaulted_params(model, g)
                                 if k.value.id in theirs and theirs[k.value.id] == dflt:
@@ -264,7 +303,7 @@ def new_defaulted_params(model: Model, fn: FunctionInfo) -> dict:
                                 continue
                             passed.add(k.arg)
         for p in cands:
-            if p.name not in passed and "**" not in passed:
+            if p.name not in passed and "**" not in passed and (n_calls or not brand_new):
                 out[p.name] = p.default.value
     memo[fn.qualname] = out
     return out
@@ -533,6 +572,14 @@ class _Builder:
         for p in self.fn.params:
             env[p.name] = ("param", p.name)
         if self.specialise:
+            # ... and a nested function reads the new keywords of the functions around it the same way
+            outer = self.fn.parent
+            own = {p.name for p in self.fn.params}
+            while outer is not None:
+                for name, val in new_defaulted_params(self.model, outer).items():
+                    if name not in own and name not in env and not any(isinstance(n_, ast.Name) and n_.id == name and isinstance(n_.ctx, ast.Store) for n_ in ast.walk(outer.node)):
+                        env[name] = ("const", val)
+                outer = outer.parent
             for name, val in new_defaulted_params(self.model, self.fn).items():
                 env[name] = ("const", val)
         start = Path([], env, None)
